@@ -2,6 +2,7 @@ import Driver.Util
 import AsyncFix.Model.Codec.Decode
 import AsyncFix.Model.Codec.Encode
 import AsyncFix.Model.Codec.Reader
+import AsyncFix.Model.Codec.ReaderProc
 import AsyncFix.Generated.Proto
 import AsyncFix.Lemmas.CodecSpec
 /-!
@@ -116,6 +117,22 @@ def handle (st : St) (cmd : String) (args : List String) : St × String :=
       | .ok f => (st, s!"ok {Driver.bytesTok f} {s'.nextOut}")
       | .error k => (st, s!"err {k.name} {s'.nextOut}")
     | _, _, _, _, _, _ => (st, "bad-op")
+  | "feedp", chunks =>
+    -- like `feed`, with a processing step that raises for messages carrying tag 9999 (C10)
+    match chunks.mapM Driver.tokBytes with
+    | none => (st, "bad-op")
+    | some cs =>
+      let rec goP (buf : Bytes) (acc : List (Msg × Bytes)) (exc : Nat) : List Bytes → Bytes × List (Msg × Bytes) × Nat × String
+        | [] => (buf, acc, exc, "-")
+        | c :: rest =>
+          let r := feedP beginString tbl procTag9999 buf c
+          match r.raised, r.stalled with
+          | some k, _ => (r.buf, acc ++ r.delivered, exc, "raised:" ++ k.name)
+          | none, true => (r.buf, acc ++ r.delivered, exc, "stalled")
+          | none, false => goP r.buf (acc ++ r.delivered) (if r.procRaised then exc + 1 else exc) rest
+      let (buf, del, exc, flag) := goP [] [] 0 cs
+      let ds := del.map fun (m, raw) => s!" D {Driver.bytesTok m.mtype} {contTok m.body} {Driver.bytesTok raw}"
+      (st, s!"buf {Driver.bytesTok buf} {flag} E{exc}" ++ String.join ds)
   | "feed", chunks =>
     match chunks.mapM Driver.tokBytes with
     | none => (st, "bad-op")
